@@ -29,14 +29,14 @@ def playPackets (jsonOk : Bytes → Bool) (cfg : Config) (strict : Bool) :
       if strict then (r.world, some (i, e), failed ++ [(i, e)])
       else playPackets jsonOk cfg strict r.world (i + 1) rest (failed ++ [(i, e)])
 
+def endingOf : Option (Nat × Err) → FrameEnd → PlayEnd
+  | some (i, e), _ => .raised i e
+  | none, .exhausted => .finished
+  | none, .headerShort => .headerShort
+
 def play (jsonOk : Bytes → Bool) (cfg : Config) (strict : Bool) (w : World) (stream : Bytes) : PlayResult :=
-  let (ps, fe) := parsePackets stream
-  let (w', raised, failed) := playPackets jsonOk cfg strict w 0 ps []
-  match raised with
-  | some (i, e) => ⟨w', .raised i e, failed⟩
-  | none =>
-    match fe with
-    | .exhausted => ⟨w', .finished, failed⟩
-    | .headerShort => ⟨w', .headerShort, failed⟩
+  let pf := parsePackets stream
+  let r := playPackets jsonOk cfg strict w 0 pf.1 []
+  { world := r.1, ending := endingOf r.2.1 pf.2, failed := r.2.2 }
 
 end ReplayModel
